@@ -49,6 +49,11 @@ func (x *Exec) initGhosts() {
 		func() {
 			defer func() {
 				if r := recover(); r != nil {
+					// types of a package that is not loaded for this property: the function cannot be
+					// used in this run either
+					if _, ok := r.(specErr); ok {
+						return
+					}
 					panic(fmt.Sprintf("uninterp %s: %v", n, r))
 				}
 			}()
